@@ -247,13 +247,29 @@ class Values(Relation):
             tgt = getattr(P.region1 if cls.startswith('Compound') and False
                           else P, attr)
             key, val = sp['extra'] if how == 'meta' else sp['vextra']
-            mode = k % 3
-            if mode == 0 or key not in tgt:
+            mode = k % 5
+            seq = tgt.get(key)
+            if mode >= 3 and not (isinstance(seq, (list, tuple)) and seq):
+                # prefer a list-valued entry the region already has
+                for key2 in tgt:
+                    if isinstance(tgt[key2], (list, tuple)) and tgt[key2]:
+                        key, seq = key2, tgt[key2]
+                        break
+            if mode >= 3 and isinstance(seq, (list, tuple)) and seq:
+                # sequences of different LENGTH: the old value is a prefix of
+                # the new one, or the new one a prefix of the old
+                if mode == 3:
+                    tgt[key] = type(seq)(list(seq) + [copy.deepcopy(seq[-1])])
+                    what = f'{attr}[{key!r}] has one more element'
+                else:
+                    tgt[key] = type(seq)(list(seq)[:-1])
+                    what = f'{attr}[{key!r}] has one element fewer'
+            elif mode % 3 == 0 or key not in tgt:
                 if key in tgt and tgt[key] == val:
                     val = 'other-value'
                 tgt[key] = copy.deepcopy(val)
                 what = f'{attr}[{key!r}] set'
-            elif mode == 1:
+            elif mode % 3 == 1:
                 del tgt[key]
                 what = f'{attr}[{key!r}] removed'
             else:
